@@ -388,3 +388,30 @@ class in_dir:
 
     def __exit__(self, *a):
         os.chdir(self.old)
+
+
+# ---- str subclasses as text items (C15, C17, C18) ---------------------------------------------------------------------------
+class LoudStr(str):
+    """a str subclass: its TEXT is what str methods, join, slicing, encode and == see; str(), format() / f-strings and repr() of
+    it say something else (like a member of a str-mixin Enum: ''.join([Level.INFO, '!']) is 'info!', f'{Level.INFO}' is 'Level.INFO')"""
+
+    def __str__(self):
+        return '<LoudStr.__str__>'
+
+    def __format__(self, spec):
+        return '<LoudStr.__format__>'
+
+    def __repr__(self):
+        return 'LoudStr(%s)' % str.__repr__(self)
+
+
+def str_enum_members(strings):
+    """the strings as members of a str-mixin Enum built for them (equal strings share a member)"""
+    import enum
+    names = {}
+    for s in strings:
+        names.setdefault(s, 'M%d' % len(names))
+    if not names:
+        return []
+    E = enum.Enum('Level', [(n, s) for s, n in names.items()], type=str)
+    return [E(s) for s in strings]
